@@ -85,6 +85,12 @@ where
         dfn
     }
 
+    /// Forgets all in-progress nodes (used when a previous solve unwound).
+    pub(crate) fn clear(&mut self) {
+        self.indices.clear();
+        self.nodes.clear();
+    }
+
     /// Clears all nodes with a depth-first number greater than or equal `dfn`.
     #[instrument(level = "debug", skip(self))]
     pub(crate) fn rollback_to(&mut self, dfn: DepthFirstNumber) {
